@@ -105,6 +105,7 @@ type FnVC struct {
 	inlining  map[*ssa.Function]bool
 	depsCache map[*ssa.Function][]famSort
 	freshRefs map[string]bool
+	inTypeInv bool
 	unsupp    string
 }
 
@@ -158,6 +159,13 @@ func (v *FnVC) Build() (err error) {
 		}
 	}
 	fr.entry = st.clone()
+	fr.vals = map[ssa.Value]Val{}
+	for i, p := range v.fn.Params {
+		fr.vals[p] = fr.params[i]
+	}
+	for i, p := range v.fn.FreeVars {
+		fr.vals[p] = fr.freeVars[i]
+	}
 	// global axioms
 	for _, ax := range v.w.Contracts.Axioms {
 		env := &specEnv{v: v, fr: fr, st: st, old: st}
@@ -306,9 +314,18 @@ func (v *FnVC) exprTextFor(kind string, ins ssa.Instruction) string {
 func (v *FnVC) freshTyped(name string, t types.Type, st *State, guard Term) Val {
 	if kindOf(t) == kTuple {
 		tu := under(t).(*types.Tuple)
-		tv := TupleV{}
+		tv := TupleV{E: make([]Val, tu.Len())}
+		g := guard
+		// (value..., error) results: the non-error components are meaningful only when the error is nil
+		if n := tu.Len(); n >= 2 && isErrorType(tu.At(n-1).Type()) {
+			ev := v.freshTyped(fmt.Sprintf("%s.%d", name, n-1), tu.At(n-1).Type(), st, guard)
+			tv.E[n-1] = ev
+			g = And(guard, Eq(ev.(IfaceV).Tag, tZero))
+		}
 		for i := 0; i < tu.Len(); i++ {
-			tv.E = append(tv.E, v.freshTyped(fmt.Sprintf("%s.%d", name, i), tu.At(i).Type(), st, guard))
+			if tv.E[i] == nil {
+				tv.E[i] = v.freshTyped(fmt.Sprintf("%s.%d", name, i), tu.At(i).Type(), st, g)
+			}
 		}
 		return tv
 	}
@@ -330,6 +347,7 @@ func (v *FnVC) assumeTyped(val Val, t types.Type, st *State, guard Term) {
 			v.sc.Assert(Implies(guard, And(Le(BigLit(lo), x.T), Le(x.T, BigLit(hi)))))
 		} else if isRefType(t) && st != nil {
 			v.sc.Assert(Implies(guard, Le(x.T, st.allocPtr)))
+			v.typeInvariants(x, t, st, guard)
 		}
 	case SliceV:
 		v.sc.Assert(Implies(guard, And(Le(tZero, x.Len), Le(tZero, x.Off), Implies(Eq(x.Arr, tZero), Eq(x.Len, tZero)))))
@@ -345,6 +363,9 @@ func (v *FnVC) assumeTyped(val Val, t types.Type, st *State, guard Term) {
 		if st != nil {
 			v.sc.Assert(Implies(guard, Le(x.Ref, st.allocPtr)))
 		}
+		// global invariant (guaranteed at every MakeInterface by a SAFE-typednil obligation):
+		// an interface never holds a nil pointer of a module pointer type
+		v.sc.Assert(Implies(And(guard, v.isPtrTag(x.Tag)), Not(Eq(x.Ref, tZero))))
 	case StructV:
 		st2 := under(t).(*types.Struct)
 		for i, f := range x.F {
@@ -355,6 +376,41 @@ func (v *FnVC) assumeTyped(val Val, t types.Type, st *State, guard Term) {
 		for i, f := range x.E {
 			v.assumeTyped(f, tu.At(i).Type(), st, guard)
 		}
+	}
+}
+
+// typeInvariants asserts the declared invariants of a pointer-typed value (library data structures).
+func (v *FnVC) typeInvariants(x Sc, t types.Type, st *State, guard Term) {
+	cs := v.w.Contracts
+	if len(cs.TypeInvs) == 0 || v.inTypeInv || v.top == nil {
+		return
+	}
+	if cs.typeInvByKey == nil {
+		cs.typeInvByKey = map[string][]*TypeInv{}
+		for _, ti := range cs.TypeInvs {
+			ty, err := v.w.resolveType(ti.TypeText, nil)
+			if err != nil {
+				panic(unsupported("type-invariant: %v", err))
+			}
+			cs.typeInvByKey[typeKey(ty)] = append(cs.typeInvByKey[typeKey(ty)], ti)
+		}
+	}
+	invs := cs.typeInvByKey[typeKey(types.Unalias(t))]
+	if len(invs) == 0 {
+		return
+	}
+	key := "tinv:" + x.T.S
+	if v.ufs[key] {
+		return
+	}
+	v.ufs[key] = true
+	v.inTypeInv = true
+	defer func() { v.inTypeInv = false }()
+	for _, ti := range invs {
+		env := &specEnv{v: v, fr: v.top, st: st, old: st, bound: map[string]specVal{ti.Var: {V: x, T: t}}}
+		env.guard = And(guard, Not(Eq(x.T, tZero)))
+		body := env.evalBool(ti.Clause.Expr)
+		v.sc.Assert(Implies(And(guard, Not(Eq(x.T, tZero))), body))
 	}
 }
 
@@ -376,6 +432,24 @@ func (w *World) TagID(t types.Type) int {
 	w.tagIDs[k] = id
 	w.tagTypes = append(w.tagTypes, t)
 	return id
+}
+
+func (v *FnVC) isPtrTag(tag Term) Term {
+	name := "isptrtag"
+	if !v.ufs[name] {
+		v.ufs[name] = true
+		var pos []string
+		for _, ct := range v.w.ConcreteTypes() {
+			if _, ok := under(ct).(*types.Pointer); ok {
+				pos = append(pos, fmt.Sprintf("(= t %d)", v.w.TagID(ct)))
+			}
+		}
+		if len(pos) == 0 {
+			pos = []string{"false"}
+		}
+		v.sc.Raw(fmt.Sprintf("(define-fun isptrtag ((t Int)) Bool (or %s false))", strings.Join(pos, " ")))
+	}
+	return app(SBool, "isptrtag", tag)
 }
 
 // implTerm: does the dynamic type with this tag implement interface type it?
@@ -519,6 +593,11 @@ func (v *FnVC) loadLoc(st *State, l Loc, guard Term) Val {
 	}
 	val, _ := unflatten(t, ts)
 	v.assumeTyped(val, t, st, guard)
+	if l.Kind == locElem && v.w.Contracts.ElemsNonNil[typeKey(types.Unalias(t))] {
+		if sc, ok := val.(Sc); ok {
+			v.sc.Assert(Implies(guard, Not(Eq(sc.T, tZero))))
+		}
+	}
 	return val
 }
 
@@ -899,7 +978,9 @@ func (v *FnVC) bumpAlloc(st *State, guard Term) {
 
 func (v *FnVC) runFrame(fr *frame, entry *State, entryReach Term) {
 	fn := fr.fn
-	fr.vals = map[ssa.Value]Val{}
+	if fr.vals == nil {
+		fr.vals = map[ssa.Value]Val{}
+	}
 	fr.reach = map[int]Term{}
 	fr.out = map[int]*State{}
 	fr.edge = map[[2]int]Term{}
@@ -1143,10 +1224,73 @@ func (v *FnVC) autoInvariant(fr *frame, li *loopInfo, phi *ssa.Phi, pre Val) (Te
 	}
 	cur := fr.vals[phi].(Sc).T
 	v.note("machine arithmetic treated as mathematical (loop counters assumed not to wrap)")
-	if dir > 0 {
-		return Le(pv.T, cur), true
+	// congruence: when every back edge adds exactly the same constant k, (phi - init) is a multiple of k
+	var cong Term = tTrue
+	if k, ok := exactStepAll(phi); ok && abs64(k) > 1 {
+		cong = Eq(app(SInt, "mod", Sub(cur, pv.T), IntLit(abs64(k))), tZero)
 	}
-	return Le(cur, pv.T), true
+	if dir > 0 {
+		return And(Le(pv.T, cur), cong), true
+	}
+	return And(Le(cur, pv.T), cong), true
+}
+
+func exactStepAll(phi *ssa.Phi) (int64, bool) {
+	b := phi.Block()
+	var k int64
+	set := false
+	for i, p := range b.Preds {
+		if !isBackEdge(p, b) {
+			continue
+		}
+		d, ok := exactStep(phi.Edges[i], phi, 0)
+		if !ok {
+			return 0, false
+		}
+		if set && d != k {
+			return 0, false
+		}
+		k, set = d, true
+	}
+	return k, set
+}
+
+func exactStep(e ssa.Value, phi *ssa.Phi, depth int) (int64, bool) {
+	if depth > 4 {
+		return 0, false
+	}
+	if e == phi {
+		return 0, true
+	}
+	switch x := e.(type) {
+	case *ssa.BinOp:
+		if x.Op == token.ADD || x.Op == token.SUB {
+			if c, ok := x.Y.(*ssa.Const); ok && c.Value != nil && c.Value.Kind() == constant.Int {
+				k, _ := constant.Int64Val(c.Value)
+				if x.Op == token.SUB {
+					k = -k
+				}
+				if d, ok := exactStep(x.X, phi, depth+1); ok {
+					return d + k, true
+				}
+			}
+		}
+	case *ssa.Phi:
+		var acc int64
+		set := false
+		for _, ed := range x.Edges {
+			d, ok := exactStep(ed, phi, depth+1)
+			if !ok {
+				return 0, false
+			}
+			if set && d != acc {
+				return 0, false
+			}
+			acc, set = d, true
+		}
+		return acc, set
+	}
+	return 0, false
 }
 
 // stepOf: e == phi + k (through chains of +const / phis inside the loop that merge such values)
